@@ -210,4 +210,32 @@ theorem float_string_accept (nc : NumCodec) (how : Narrow) (f : Fmt) (s : Str) (
     ∃ ds, s = 48 :: 120 :: ds ∧ ds.length = 2 * (f.bits / 8) ∧ ∀ d ∈ ds, (hexVal d).isSome = true :=
   float_string_accept' nc how f s b hs h
 
+/-- **numbers beyond the range of the type are rejected** (repaired code): a JSON number is finite, so one whose
+nearest value in the format is infinite is not representable; a number is accepted only with a FINITE result -/
+theorem float_number_accept (nc : NumCodec) (how : Narrow) (f : Fmt) (t : List Char) (b : Nat)
+    (h : metaToFloat nc how f (.num t) = some b) :
+    f.isFinite b = true ∧ ∃ b64, nc.rd t = some b64 ∧ narrow how f b64 = b := by
+  simp only [metaToFloat] at h
+  cases hr : nc.rd t with
+  | none => simp [hr] at h
+  | some b64 =>
+    simp only [hr, Option.bind_some] at h
+    by_cases hfin : f.isFinite (narrow how f b64) = true
+    · simp only [hfin, if_true, Option.some.injEq] at h
+      exact ⟨h ▸ hfin, b64, rfl, h⟩
+    · simp [hfin] at h
+
+theorem float_number_overflow_rejected (nc : NumCodec) (how : Narrow) (f : Fmt) (t : List Char) (b64 : Nat)
+    (hr : nc.rd t = some b64) (hover : f.isFinite (narrow how f b64) = false) :
+    metaToFloat nc how f (.num t) = none := by
+  simp [metaToFloat, hr, hover]
+
+-- `1e39` is a finite binary64 beyond binary32's range: rejected for float32 (it used to read as +Infinity)
+set_option exponentiation.threshold 1200 in
+example : metaToFloat exactCodec .direct f32 (.num "1e39".toList) = none := by decide +kernel
+set_option exponentiation.threshold 1200 in
+example : metaToFloat exactCodec .direct f16 (.num "65520".toList) = none := by decide +kernel
+set_option exponentiation.threshold 1200 in
+example : (metaToFloat exactCodec .direct f16 (.num "65504".toList)).isSome = true := by decide +kernel
+
 end Zarrs.C14
